@@ -10,6 +10,9 @@ import AHP.Lemmas.WrapStr
 import AHP.Lemmas.WrapLexFeed
 import AHP.Lemmas.StripIERender
 import AHP.Lemmas.StripIEMulti
+import AHP.Lemmas.ParserObjLex
+import AHP.Lemmas.ParserObjDoctype
+import AHP.Lemmas.IntakeStableObs
 namespace AHP.C02
 open AHP AHP.Spec
 
@@ -221,26 +224,298 @@ theorem spec_text_verbatim (k : Nat) (open_ : List Str) (e : Str) (ts : List Tok
     items (k + 1) open_ (.entity e :: ts) = (.text ('&' :: e ++ [';']) :: (items k open_ ts).1, (items k open_ ts).2) := by
   simp [items, textOf]
 
-/-- **C02c (entry points).** In the model every entry point is `feedTokens ∘ tokenize ∘ decode`; that they
-    agree is the composition — the substance is in the tie (parseStr(str) / bytes / parseFile / constructor). -/
-theorem entry_points_agree (decode₁ decode₂ : List UInt8 → Str) (tok : Str → List Token) (b : List UInt8)
-    (h : decode₁ b = decode₂ b) : feedTokens (tok (decode₁ b)) = feedTokens (tok (decode₂ b)) := by rw [h]
+/-! #### C02 — the attribute clause and the doctype clause against INDEPENDENT specifications (`Spec/Attrs.lean`)
 
-/-- **C02d (reuse).** A parse starts from the initial state whatever was parsed before: the result of the
-    last parse of any history is the result of parsing that input alone (`reset` precedes every parse). -/
-def parseHistory : List (List Token) → Option FeedResult
-  | [] => none
-  | [t] => some (feedTokens t)
-  | _ :: h => parseHistory h
+  Review finding (C02-2): `Spec.items` / `Spec.single` build an element's store with the same `intake` as
+  `handleStart`, and `Spec.doctypeStep` is textually `stepD`, so "attribute names are lower-cased with invalid names
+  dropped and the last duplicate winning" and "the doctype is reported separately" were not specified independently.
+  `Spec.attrs` / `Spec.doctypeRead` are written from the property text without `intake`, `AttrState.set`, `dictSet`
+  or `stepD`; the theorems below say what every store built by `intake` — hence every element of `Spec.build` and of
+  `feedTokens` — lists, and what doctype every parse reports. -/
 
-theorem reuse_reflects_last_only (h : List (List Token)) (last : List Token) :
-    parseHistory (h ++ [last]) = some (feedTokens last) := by
-  induction h with
-  | nil => rfl
-  | cons t h ih =>
-    cases h with
-    | nil => rfl
-    | cons t2 h2 => simpa [parseHistory] using ih
+/-- the specification's reading of a valid attribute name (a letter or underscore, then letters, digits, `-`, `_`)
+    is `Tags.isValidAttributeName` -/
+theorem valid_name_reading (n : Str) : Spec.validName n = validAttrName n := AttrStores.validName_eq n
+
+/-- **C02 (attribute clause; names other than class / style / spellcheck).** For every raw attribute list — any
+    letter case, duplicates, invalid names — the element lists exactly: the lower-cased valid names in the order of
+    their first occurrence, each with the value of its last occurrence. -/
+theorem attrs_spec_plain (l : List Attr)
+    (h : ∀ p ∈ l, lower p.1 ≠ "class".toList ∧ lower p.1 ≠ "style".toList ∧ lower p.1 ≠ "spellcheck".toList) :
+    (intake l AttrState.empty).view = Spec.attrs l :=
+  intake_view_eq_spec_plain l (fun p hp => by
+    obtain ⟨h1, h2, h3⟩ := h p hp
+    exact ⟨h1, h2, fun e => h3 (by rw [e]; decide)⟩)
+
+/-- **C02 (attribute clause, every list without a declaration-less `style`).** The listing is the documented
+    normalisation (`Spec.normalise`: class words joined by single blanks and listed last; style parsed and
+    re-rendered; spellcheck as boolean string) of the independently specified attribute set. -/
+theorem attrs_spec (l : List Attr) (h : ∀ p ∈ l, Spec.deadStyle p = false) :
+    (intake l AttrState.empty).view = Spec.normalise (Spec.attrs l) :=
+  intake_view_eq_spec_live l h
+
+/-- **C02 (attribute clause, in general).** Every raw list: the same over `Spec.liveStyle l` — a `style` attribute
+    without any declaration deletes the element's `style` entry (`_ensureHtmlAttribute`), so a `style` attribute behind
+    it is listed at its own position, not at the first one's (library behaviour the property text does not mention;
+    `liveStyle_needed` shows the carve-out is needed). -/
+theorem attrs_spec_general (l : List Attr) :
+    (intake l AttrState.empty).view = Spec.normalise (Spec.attrs (Spec.liveStyle l)) :=
+  intake_view_eq_spec l
+
+/-- what `Spec.attrs` says on a concrete list: upper case, a duplicate (`id`: last value, first position), an
+    invalid name, a value-less attribute -/
+example : Spec.attrs [("ID".toList, some "x".toList), ("Title".toList, some "t".toList), ("1a".toList, some "z".toList),
+      ("hidden".toList, none), ("id".toList, some "y".toList)]
+    = [("id".toList, some "y".toList), ("title".toList, some "t".toList), ("hidden".toList, none)] := by decide
+
+/-- `attrs_spec_plain` applies to it -/
+example : (intake [("ID".toList, some "x".toList), ("Title".toList, some "t".toList), ("1a".toList, some "z".toList),
+      ("hidden".toList, none), ("id".toList, some "y".toList)] AttrState.empty).view
+    = [("id".toList, some "y".toList), ("title".toList, some "t".toList), ("hidden".toList, none)] := by
+  rw [attrs_spec_plain _ (by decide)]; decide
+
+/-- `attrs_spec` with class / style / spellcheck present -/
+example : Spec.normalise (Spec.attrs [("class".toList, some " b  a ".toList), ("STYLE".toList, some "color:red".toList),
+      ("spellcheck".toList, some "No".toList), ("Class".toList, some "c".toList), ("id".toList, some "i".toList)])
+    = [("style".toList, some "color: red".toList), ("spellcheck".toList, some "true".toList),
+       ("id".toList, some "i".toList), ("class".toList, some "c".toList)] := by decide
+
+/-- `attrs_spec` applies to it (no declaration-less `style`) -/
+example : (intake [("class".toList, some " b  a ".toList), ("STYLE".toList, some "color:red".toList),
+      ("spellcheck".toList, some "No".toList), ("Class".toList, some "c".toList), ("id".toList, some "i".toList)]
+      AttrState.empty).view
+    = [("style".toList, some "color: red".toList), ("spellcheck".toList, some "true".toList),
+       ("id".toList, some "i".toList), ("class".toList, some "c".toList)] := by
+  rw [attrs_spec _ (by decide)]; decide
+
+/-- the carve-out is needed: `style="a:b" id=x style="" style="c:d"` lists `id` BEFORE `style` (checked on the
+    library), where "last value at the first position" would list `style` first -/
+theorem liveStyle_needed :
+    (intake [("style".toList, some "a:b".toList), ("id".toList, some "x".toList), ("style".toList, some [])
+      , ("style".toList, some "c:d".toList)] AttrState.empty).view
+      = [("id".toList, some "x".toList), ("style".toList, some "c: d".toList)] ∧
+    Spec.normalise (Spec.attrs [("style".toList, some "a:b".toList), ("id".toList, some "x".toList),
+      ("style".toList, some []), ("style".toList, some "c:d".toList)])
+      = [("style".toList, some "c: d".toList), ("id".toList, some "x".toList)] := by decide
+
+/-- **C02 (doctype clause).** After ANY token sequence the handlers' doctype is: the last doctype declaration when
+    it is non-empty; otherwise the first non-empty unknown declaration behind it (behind the start of the input when
+    there is no declaration); nothing when there is neither. -/
+theorem doctype_spec (toks : List Token) : toks.foldl stepD none = Spec.doctypeRead toks := doctype_fold_eq_read toks
+
+/-- …so that is the doctype of the specification's document -/
+theorem build_doctype_read (toks : List Token) : (Spec.build toks).1.doctype = Spec.doctypeRead toks := by
+  have h : Spec.doctypeOf toks = Spec.doctypeRead toks := by
+    unfold Spec.doctypeOf; rw [← stepD_eq_spec]; exact doctype_fold_eq_read toks
+  unfold Spec.build
+  split <;> exact h
+
+/-- …and of EVERY document the two-pass `feed` builds (first pass or wrapped second pass; wrapper name mentioned
+    or not) -/
+theorem feed_doctype_read (toks : List Token) (d : Doc) (b : Bool) (h : feedTokens toks = .doc d b) :
+    d.doctype = Spec.doctypeRead toks := by
+  have key : ∀ (ts : List Token) (sec : Bool), FeedResult.ofPass sec (run BState.init ts) = .doc d b →
+      d.doctype = ts.foldl stepD none := by
+    intro ts sec hh
+    rw [run_eq] at hh
+    cases hr : runT BState.init.tree ts <;> rw [hr] at hh <;>
+      simp [Outcome.map, FeedResult.ofPass, BState.doc, BState.init] at hh
+    rw [← hh.1]
+  unfold feedTokens at h
+  split at h
+  · rw [key _ _ h, fold_wrap, doctype_fold_eq_read]
+  · rw [key _ _ h, doctype_fold_eq_read]
+
+/-- the usual cases spelled out: a non-empty doctype declaration somewhere — the LAST one is reported -/
+theorem doctype_last_declaration (pre post : List Token) (c : Char) (d : Str) (hpost : ∀ t ∈ post, ∀ x, t ≠ .decl x) :
+    (pre ++ .decl (c :: d) :: post).foldl stepD none = some (c :: d) :=
+  doctype_last_decl pre post c d hpost
+
+/-- no doctype declaration: the FIRST non-empty unknown declaration -/
+theorem doctype_first_unknown_declaration (pre post : List Token) (c : Char) (u : Str)
+    (hpre : ∀ t ∈ pre, (∀ x, t ≠ .decl x) ∧ (∀ x, t = .unknownDecl x → x = []))
+    (hpost : ∀ t ∈ post, ∀ x, t ≠ .decl x) :
+    (pre ++ .unknownDecl (c :: u) :: post).foldl stepD none = some (c :: u) :=
+  doctype_first_unknown pre post c u hpre hpost
+
+/-- neither kind of declaration: no doctype -/
+theorem doctype_absent (ts : List Token) (h : ∀ t ∈ ts, (∀ x, t ≠ .decl x) ∧ (∀ x, t ≠ .unknownDecl x)) :
+    ts.foldl stepD none = none := doctype_none ts h
+
+example : Spec.doctypeRead [.unknownDecl "CDATA[x".toList, .decl "DOCTYPE a".toList, .start "p".toList [],
+    .unknownDecl "if".toList, .decl "DOCTYPE b".toList, .unknownDecl "late".toList] = some "DOCTYPE b".toList := by decide
+example : Spec.doctypeRead [.start "p".toList [], .unknownDecl "CDATA[x".toList, .unknownDecl "y".toList]
+    = some "CDATA[x".toList := by decide
+
+/-- what the API shows of a parse result: doctype, root as names / listed attribute pairs / flags / blocks, and
+    whether the wrapper was needed -/
+def shown : FeedResult → Option ((Option Str × Option Spec.OTree) × Bool)
+  | .doc d second => some ((d.doctype, d.root.map Node.toO), second)
+  | .raised _ => none
+
+/-- **C02a against a specification that shares NOTHING with the model but the string functions** (`Spec.buildO`:
+    recursive descent without a stack, attribute lists by `Spec.attrs` / `Spec.normalise`, doctype by
+    `Spec.doctypeRead`; no `intake`, no `AttrState.set`, no `dictSet`, no `stepD`).  For every token sequence that does
+    not mention the wrapper name, what the API shows of the parsed document — doctype; names, attribute name/value
+    pairs in listing order, self-closing flags, text blocks of every element; single root or wrapped — is `buildO`. -/
+theorem feed_shows_spec (toks : List Token) (hw : NoWrapper toks) :
+    shown (feedTokens toks) = some (Spec.buildO toks) := by
+  rw [feed_eq_spec toks hw, ← obs_build]
+  rfl
+
+/-- the same on TEXT, with the stripping step (serialiser's image, no wrapper name, no conditional marker) -/
+theorem parseText_shows_spec (ts : List Token) (h : ListOK ts) (hw : NoWrapper ts) (hm : ∀ t ∈ ts, TokNoIE t) :
+    (parseText (renderToks ts)).bind shown = some (Spec.buildO ts) := by
+  rw [parseText_renderToks ts h hm, feedText_renderToks ts h]
+  exact feed_shows_spec ts hw
+
+example : Spec.buildO [.decl "DOCTYPE html".toList, .start "P".toList [("CLASS".toList, some " b  a".toList),
+      ("id".toList, some "1".toList), ("ID".toList, some "2".toList)], .data "x".toList, .start "br".toList [],
+      .end_ "q".toList]
+    = ((some "DOCTYPE html".toList,
+        some (.elem "p".toList [("id".toList, some "2".toList), ("class".toList, some "b a".toList)] false
+          [.text "x".toList, .elem "br".toList [] true []])), false) := by rfl
+
+/-! #### C02c / C02d — the parser OBJECT across parses (`Lemmas/ParserObj.lean`)
+
+  Review finding (C02-1): the former `entry_points_agree` assumed its own premise and the former
+  `reuse_reflects_last_only` restated the definition of a history function that kept no state.  Both are replaced:
+  the object now carries `_inTag` / `root` / `doctype`, the index maps of the indexed class, the tokenizer's own
+  state and the encoding from call to call; `parseOn` follows `parseStr` (`reset`, decode, `feed`), `feedObj` follows
+  `feed` (which does NOT reset first).  `PObj.Tokenizer τ` is ANY tokenizer with memory. -/
+
+open PObj in
+/-- **C02d (reuse).** For every history of inputs and EVERY starting object — whatever an earlier parse left in
+    `_inTag` / `root` / `doctype` (elements left open, a parse that raised half-way), in the index maps, in the
+    tokenizer (`rawdata`, raw-text mode) — the object and the outcome after the last `parseStr` are those of a
+    freshly constructed object of the same class and encoding given the last input alone. -/
+theorem reuse_reflects_last_only {τ ε β : Type} (T : Tokenizer τ) (decode : ε → β → Option Str)
+    (o0 : ParserObj τ ε) (r0 : Option Raised) (h : List (Input β)) (last : Input β) :
+    parseHist T decode (o0, r0) (h ++ [last]) = parseOn T decode (ParserObj.fresh T o0.enc o0.indexed) last :=
+  reuse_object T decode o0 r0 h last
+
+open PObj in
+/-- …and that result is the two-pass `feed` of the token level (`feedTokens` with the tokenizer's own callbacks for
+    the wrapped text) on what the tokenizer delivers FROM ITS FRESH STATE for the stripped last text: nothing of the
+    history enters. -/
+theorem reuse_reflects_last_only_doc {τ ε β : Type} (T : Tokenizer τ) (decode : ε → β → Option Str)
+    (o0 : ParserObj τ ε) (r0 : Option Raised) (h : List (Input β)) (s : Str) :
+    viewOf (parseHist T decode (o0, r0) (h ++ [.str s]))
+      = viewOfFeed (feedTwo (T.feed T.fresh (stripIE s)).1 (T.feed T.fresh (wrapStr (stripIE s))).1) := by
+  rw [reuse_object, parseOn_str_view]
+
+open PObj in
+/-- **C02d, indexed class.** After the last `parseStr` of any history (not raising) the index holds exactly the
+    elements of the pass that built the last document, in document order; a plain parser's stays empty. -/
+theorem reuse_index_last_only {τ ε β : Type} (T : Tokenizer τ) (decode : ε → β → Option Str)
+    (o0 : ParserObj τ ε) (r0 : Option Raised) (h : List (Input β)) (s : Str)
+    (hok : (parseHist T decode (o0, r0) (h ++ [.str s])).2 = none) :
+    (parseHist T decode (o0, r0) (h ++ [.str s])).1.core.log
+      = (if o0.indexed then
+          (match run BState.init (T.feed T.fresh (stripIE s)).1 with
+           | .multipleRoot => (T.feed T.fresh (wrapStr (stripIE s))).1
+           | _ => (T.feed T.fresh (stripIE s)).1).flatMap newTags
+         else []) := by
+  rw [reuse_object] at hok ⊢
+  exact parseOn_str_log T decode _ s hok
+
+open PObj in
+/-- **C02d end to end (strict lexer).** With the strict lexer as tokenizer: after ANY history on ANY starting
+    object, `parseStr` of the rendering of a token list in the serialiser's image (not mentioning the wrapper, no
+    conditional-comment marker) leaves the document of the recursive-descent specification of THAT list. -/
+theorem reuse_eq_spec {ε β : Type} (decode : ε → β → Option Str) (o0 : ParserObj Unit ε) (r0 : Option Raised)
+    (h : List (Input β)) (ts : List Token) (hok : ListOK ts) (hw : NoWrapper ts) (hm : ∀ t ∈ ts, TokNoIE t) :
+    viewOf (parseHist lexTok decode (o0, r0) (h ++ [.str (renderToks ts)])) = .inl (Spec.build ts).1 := by
+  rw [reuse_reflects_last_only_doc]
+  have hs : stripIE (renderToks ts) = renderToks ts :=
+    stripIE_of_no_marker _ (renderToks_no_marker_of ts hok hm)
+  rw [hs]
+  simp only [lexTok, lexStrict_renderToks ts hok, lexStrict_wrapStr_renderToks ts hok, Option.getD_some]
+  rw [← feedTokens_eq_feedTwo, feed_eq_spec ts hw]
+  rfl
+
+open PObj in
+/-- **C02d has content: it FAILS without the reset.** `parseStr` without its first line: the second document of a
+    two-parse history lands inside the element the first one left open. -/
+theorem reuse_fails_without_reset :
+    ¬ ∀ (o : ParserObj Unit Unit) (i : Input Unit),
+        rootName (parseOnNoReset lexTok noBytes o i)
+          = rootName (parseOnNoReset lexTok noBytes (ParserObj.fresh lexTok o.enc o.indexed) i) := by
+  intro hall
+  have h1 := hall (parseOnNoReset lexTok noBytes (ParserObj.fresh lexTok () false) (.str "<a >".toList)).1
+    (.str "<b ></b>".toList)
+  have h2 := noReset_counter
+  have h3 : rootName (parseOnNoReset lexTok noBytes (ParserObj.fresh lexTok () false) (.str "<b ></b>".toList))
+      = some "b".toList := by decide
+  have e : (parseOnNoReset lexTok noBytes (ParserObj.fresh lexTok () false) (.str "<a >".toList)).1.indexed = false := by
+    decide
+  simp only [hist2] at h2
+  rw [h2.1, e, h3] at h1
+  exact absurd h1 (by decide)
+
+/-- the same for the two halves of the reset separately: the indexed class with the plain `_reset` (the library
+    before `c1d2cb2`) keeps stale index entries; a `_reset` without `HTMLParser.reset` lets text the tokenizer kept
+    from the first input join the second -/
+theorem reuse_fails_with_half_resets :
+    (PObj.logNames (PObj.parseOnPlainReset (β := Unit) PObj.lexTok
+        (PObj.parseOnPlainReset (β := Unit) PObj.lexTok (PObj.ParserObj.fresh PObj.lexTok () true) (.str "<a ></a>".toList)).1
+        (.str "<b ></b>".toList)) ≠
+      PObj.logNames (PObj.parseOn PObj.lexTok PObj.noBytes (PObj.ParserObj.fresh PObj.lexTok () true) (.str "<b ></b>".toList))) ∧
+    (PObj.rootName (PObj.parseOnNoTkReset (β := Unit) PObj.bufTok
+        (PObj.parseOnNoTkReset (β := Unit) PObj.bufTok (PObj.ParserObj.fresh PObj.bufTok () false) (.str "<a ></a><".toList)).1
+        (.str "b ></b>".toList)) ≠
+      PObj.rootName (PObj.parseOn PObj.bufTok PObj.noBytes (PObj.ParserObj.fresh PObj.bufTok () false) (.str "b ></b>".toList))) := by
+  decide
+
+open PObj in
+/-- **C02c (entry points: `parseStr(bytes)`).** Bytes are decoded with the object's encoding after the reset and
+    then go the way of `parseStr(str)`: whenever the decoded text is `s`, object and outcome are those of
+    `parseStr(s)`.  (That the decoding itself is the codec's — and `parseFile(path | file object)` and the
+    constructor's `filename=`, which read the text through `codecs.open` / `.read()` before the same `feed` — is
+    observed in the tie, not proved: `decode` is a parameter.) -/
+theorem entry_points_agree {τ ε β : Type} (T : Tokenizer τ) (decode : ε → β → Option Str) (o : ParserObj τ ε)
+    (b : β) (s : Str) (h : decode o.enc b = some s) :
+    parseOn T decode o (.bytes b) = parseOn T decode o (.str s) :=
+  parseOn_bytes T decode o b s h
+
+open PObj in
+/-- two byte strings with the same decoding (in the object's encoding) give the same object and outcome — also when
+    neither decodes -/
+theorem entry_points_same_text {τ ε β : Type} (T : Tokenizer τ) (decode : ε → β → Option Str) (o : ParserObj τ ε)
+    (b₁ b₂ : β) (h : decode o.enc b₁ = decode o.enc b₂) :
+    parseOn T decode o (.bytes b₁) = parseOn T decode o (.bytes b₂) := by
+  simp only [parseOn, h]
+
+open PObj in
+/-- bytes that do not decode: the call raises after the reset — the earlier document is gone -/
+theorem entry_point_undecodable {τ ε β : Type} (T : Tokenizer τ) (decode : ε → β → Option Str) (o : ParserObj τ ε)
+    (b : β) (h : decode o.enc b = none) :
+    parseOn T decode o (.bytes b) = (ParserObj.fresh T o.enc o.indexed, some .decode) ∧
+    (parseOn T decode o (.bytes b)).1.core.doc = ⟨none, none⟩ := by
+  rw [parseOn_bytes_undecodable T decode o b h]
+  exact ⟨rfl, rfl⟩
+
+/-! non-vacuity of `entry_points_agree` / `reuse_index_last_only`: a decoder that accepts one byte string; an indexed
+    parser whose second document takes the wrapped second pass (its index then holds the wrapper and both roots, none
+    of the first document's elements) -/
+example : PObj.parseOn PObj.lexTok (fun (_ : Unit) (b : List UInt8) => if b = [60, 97, 32, 62] then some "<a >".toList else none)
+      (PObj.ParserObj.fresh PObj.lexTok () false) (.bytes [60, 97, 32, 62])
+    = PObj.parseOn PObj.lexTok (fun (_ : Unit) (b : List UInt8) => if b = [60, 97, 32, 62] then some "<a >".toList else none)
+      (PObj.ParserObj.fresh PObj.lexTok () false) (.str "<a >".toList) :=
+  entry_points_agree _ _ _ _ _ (by decide)
+
+example : (PObj.parseHist PObj.lexTok PObj.noBytes (PObj.ParserObj.fresh PObj.lexTok () true, none)
+      [.str "<i ><u >".toList, .str "<a ></a><b ></b>".toList]).2 = none ∧
+    PObj.logNames (PObj.parseHist PObj.lexTok PObj.noBytes (PObj.ParserObj.fresh PObj.lexTok () true, none)
+      [.str "<i ><u >".toList, .str "<a ></a><b ></b>".toList]) = [wrapperName, "a".toList, "b".toList] := by decide
+
+/-! non-vacuity: a three-parse history — the first leaves `<a>` open, the second raises (text after the root in
+    both passes), the third is a single-root document — on the strict lexer -/
+example : PObj.rootName (PObj.parseHist PObj.lexTok PObj.noBytes (PObj.ParserObj.fresh PObj.lexTok () true, none)
+    [.str "<a >".toList, .str "<a ></a></xxxblank>x".toList, .str "<b ></b>".toList]) = some "b".toList := by decide
+
+example : (PObj.parseHist PObj.lexTok PObj.noBytes (PObj.ParserObj.fresh PObj.lexTok () true, none)
+    [.str "<a >".toList, .str "<a ></a></xxxblank>x".toList]).2 = some (.parse .multipleRoot) := by decide
 
 /-- **C02b.** `getRootNodes` of a wrapped document lists the top-level elements in order; `getHTML`
     serialises every top-level block (text included) in order. -/
@@ -940,5 +1215,14 @@ example : NoWrapper [.start "a".toList [], .data "x".toList, .end_ "b".toList, .
 
 example : (Spec.build [.start "a".toList [], .start "b".toList [], .data "x".toList, .end_ "a".toList,
     .data "y".toList]).2 = true := by decide
+
+/-- `reuse_eq_spec` applies: after a history that left an element open, `parseStr` of `sampleDocIE`'s rendering gives
+    the specification's document of `sampleDocIE` -/
+example : PObj.viewOf (PObj.parseHist PObj.lexTok PObj.noBytes (PObj.ParserObj.fresh PObj.lexTok () true, none)
+    ([.str "<a >".toList] ++ [.str (renderToks sampleDocIE)])) = .inl (Spec.build sampleDocIE).1 :=
+  reuse_eq_spec PObj.noBytes _ none [.str "<a >".toList] sampleDocIE sampleDocIE_ok (by
+    intro t ht
+    simp [sampleDocIE] at ht
+    rcases ht with rfl | rfl | rfl | rfl | rfl | rfl | rfl <;> decide) sampleDocIE_noIE
 
 end AHP.C02
